@@ -107,6 +107,24 @@ fn snapshot(root: &Path, exclude: &[&Path]) -> Snap {
     out
 }
 
+/// Back-dates every regular file under `dir` (a cache that has aged).
+fn age_files(dir: &Path, to: std::time::SystemTime) {
+    if let Ok(rd) = std::fs::read_dir(dir) {
+        for e in rd.flatten() {
+            let p = e.path();
+            match std::fs::symlink_metadata(&p) {
+                Ok(m) if m.is_dir() => age_files(&p, to),
+                Ok(m) if m.is_file() => {
+                    if let Ok(f) = std::fs::OpenOptions::new().write(true).open(&p) {
+                        let _ = f.set_modified(to);
+                    }
+                }
+                _ => {}
+            }
+        }
+    }
+}
+
 fn snap_diff(a: &Snap, b: &Snap) -> Option<String> {
     for (k, v) in a {
         match b.get(k) {
@@ -121,6 +139,14 @@ fn snap_diff(a: &Snap, b: &Snap) -> Option<String> {
         }
     }
     None
+}
+
+/// `dest_<n>`, or the 255-byte `dest_<n>_nnn...` of a long-named destination.
+fn dest_name(n: &str) -> bool {
+    let Some(rest) = n.strip_prefix("dest_") else { return false };
+    let digits = rest.bytes().take_while(|b| b.is_ascii_digit()).count();
+    let tail = &rest[digits..];
+    digits > 0 && (tail.is_empty() || (n.len() == 255 && tail.starts_with('_') && tail[1..].bytes().all(|b| b == b'n')))
 }
 
 fn is_read_only(op: &Op) -> bool {
@@ -154,7 +180,9 @@ impl Engine for C15 {
          dirfd/cwd and normalised, lies under the cache root or is the destination given to an extraction step; (b) outside snapshot — names, sizes, mtimes and hashes of \
          everything in the sandbox outside the cache root and of the TMPDIR sentinel are unchanged; (c) opacity — the only index path a keyed step touches is the reference \
          bucket path of its key (and its ancestors); (d) read-only — reads, streams, metadata, exists, listing issue zero mutating calls and leave the cache tree byte- and \
-         mtime-identical. Non-trivial = a mutating step with a hostile key, or a read-only step on a non-empty cache; distinct = distinct program"
+         mtime-identical; in run (A) the cache directory is given under one of eight spellings (trailing slash, symlink, dot segments, non-ASCII and non-UTF-8 \
+         names, `..` right after a symlink) and everything next to it must be unchanged at the end, and before half of the read-only calls every file in the cache \
+         is back-dated by 11 days to 22 years (an aged cache). Non-trivial = a mutating step with a hostile key, or a read-only step on a non-empty cache; distinct = distinct program"
             .into()
     }
     fn assumptions(&self) -> Vec<String> {
@@ -231,11 +259,26 @@ impl Engine for C15 {
         // ---------- (A) in process, against the model: keys are independent entries ----------
         env.scratch.reset();
         {
-            let ctx = Ctx::new(env.scratch.cache.clone(), env.scratch.scratch.clone(), &prog.keys, &prog.blobs);
+            // the cache directory under one of its spellings (symlinks, dot segments, `..` after
+            // a symlink, non-UTF-8): whatever the spelling, nothing next to the cache changes
+            let _ = std::fs::remove_dir_all(env.scratch.root.join("alias_sub"));
+            let sel = super::hash_of(prog) >> 3;
+            let alias = env.scratch.cache_alias(sel);
+            if alias != env.scratch.cache {
+                st.class("cache_path_spelled_differently");
+            }
+            let around_before = snapshot(&env.scratch.root, &[&env.scratch.cache, &env.scratch.scratch]);
+            let ctx = Ctx::new(alias, env.scratch.scratch.clone(), &prog.keys, &prog.blobs);
             let mut model = Model::new();
             let addrs = basic::addr_universe(prog);
             for (i, s) in prog.steps.iter().enumerate() {
                 let ro = is_read_only(&s.op);
+                if ro && (sel >> 5) % 2 == 0 {
+                    // an aged cache: every file in it was last modified long ago
+                    let age = [11u64, 45, 400, 8000][((sel >> 6) as usize + i) % 4] * 86400;
+                    age_files(&env.scratch.cache, std::time::SystemTime::now() - std::time::Duration::from_secs(age));
+                    st.class("read_only_call_on_aged_cache");
+                }
                 let before = if ro {
                     // background cleanup of earlier dropped async writers must have settled
                     crate::rt::quiesce();
@@ -271,6 +314,12 @@ impl Engine for C15 {
             basic::sweep_keys(&ctx, &mut model, st, true, 0).map_err(|e| format!("(in-process run) at the end: {e}"))?;
             basic::sweep_addrs(&ctx, &mut model, st, &addrs, 0).map_err(|e| format!("(in-process run) at the end: {e}"))?;
             basic::sweep_list(&ctx, &mut model, st).map_err(|e| format!("(in-process run) at the end: {e}"))?;
+            crate::rt::quiesce();
+            let around_after = snapshot(&env.scratch.root, &[&env.scratch.cache, &env.scratch.scratch]);
+            st.eval(1);
+            if let Some(d) = snap_diff(&around_before, &around_after) {
+                return Err(format!("(in-process run, cache given as {}) something next to the cache directory changed: {d}", ctx.cache.display()));
+            }
         }
         // ---------- (B) traced run inside a sandbox ----------
         env.scratch.reset();
@@ -364,7 +413,7 @@ impl Engine for C15 {
                 // (a) containment
                 // destinations on the other filesystem live under <root>/cvh-x.<pid of the driver>/<tag>/
                 let on_xfs = { let t = p.to_string_lossy(); t.starts_with("/var/tmp/cvh-x.") || t.starts_with("/dev/shm/cvh-x.") };
-                let ok = under(&p, &cache_c) || under(&p, &cache) || (is_extract && on_xfs && p.file_name().map(|n| { let n = n.to_string_lossy(); n.starts_with("dest_") && n[5..].bytes().all(|b| b.is_ascii_digit()) }).unwrap_or(false)) || (is_extract && (under(&p, &work_c) || under(&p, &work)) && p.file_name().map(|n| { let n = n.to_string_lossy(); n.starts_with("dest_") && n[5..].bytes().all(|b| b.is_ascii_digit()) }).unwrap_or(false));
+                let ok = under(&p, &cache_c) || under(&p, &cache) || (is_extract && on_xfs && p.file_name().map(|n| dest_name(&n.to_string_lossy())).unwrap_or(false)) || (is_extract && (under(&p, &work_c) || under(&p, &work)) && p.file_name().map(|n| dest_name(&n.to_string_lossy())).unwrap_or(false));
                 if !ok {
                     return Err(format!(
                         "{} touched {} outside the cache directory {} ({})",
